@@ -4,7 +4,7 @@ set -e
 cd "$(dirname "$0")"
 export CARGO_NET_OFFLINE=true
 cargo build --release --offline -p e1_pollsim
-for ws in e1_pull e1_sink e1_push e2_wakesim; do
+for ws in e1_pull e1_sink e1_push e2_wakesim e6_gossip; do
   (cd "$ws" && cargo build --release --offline)
 done
 (cd e4_hydroprod && cargo build --release --offline -p e4_hydroprod)
